@@ -281,7 +281,7 @@ def apply_trigger(b, sc, trig, fresh, red):
 def prepare(sc):
     utxos = [mk_utxo(u) for u in sc['utxos']]
     umap = [[u.input.transaction_id.payload.hex(), u.input.index, u.output.to_cbor().hex()] for u in utxos]
-    ctx = Ctx(sc, utxos)
+    ctx = long_lived(Ctx, sc, utxos)
     b = TransactionBuilder(ctx)
     fresh = lambda i: copy.deepcopy(utxos[i])
     if sc.get('threshold') is not None:
